@@ -31,6 +31,11 @@ def build(rng, g):
     pool = rng.sample(range(0, 9), nm)
     n = rng.randint(1, 15)
     nparams = rng.randint(1, 4)
+    if rng.random() < 0.05:
+        n = rng.choice([25, 40])
+        nparams = rng.choice([6, 9])
+        nm = rng.choice([5, 8])
+        pool = rng.sample(range(0, 30), nm)
     params = []
     while len(params) < nparams:
         p = G.ident(fresh=False)
@@ -80,6 +85,12 @@ def build(rng, g):
         lines.append("Rgate({%s}) | %d" % (p, rng.choice(pool)))
         tags.add("form:bare")
     vals = {p: rng.choice([-1, 1]) * round(rng.uniform(0.2, 3.0), rng.choice([2, 4, 12])) for p in params}
+    for p in params:
+        c = rng.random()
+        if c < 0.06:
+            vals[p] = rng.choice([1.0, -1.0, 2.0, 0.5, 10.0, 100.0, 3.0])   # "round" values
+        elif c < 0.1:
+            vals[p] = rng.choice([-1, 1]) * rng.uniform(1, 9) * 10 ** rng.choice([-6, -3, 3, 6])
     return "\n".join(lines) + "\n", vals, tags
 
 
@@ -125,7 +136,9 @@ def check_case(ctx, text, vals, tags, witness=None):
         return ctx.out_of_domain("template cannot be instantiated (C04's business)")
     rng = ctx.rng("order", text)
     n = len(P.operations)
-    cfg = content.Cfg(numbers="close", rtol=1e-9, seed="C17")
+    # arguments are affine a*p+b with |a|,|b| of order one: near a zero of the argument only an absolute tolerance is meaningful
+    scale = max([1.0] + [abs(v) for v in vals.values()])
+    cfg = content.Cfg(numbers="close", rtol=1e-9, atol=1e-9 * scale, seed="C17")
     target_content = content.program_content(P)
     norders = 1 + (2 if ctx.tier == "quick" else 6)
     for k in range(norders):
